@@ -4,6 +4,7 @@ import CgtModel.Fx
 import CgtModel.Dsl
 import CgtModel.Awards
 import CgtModel.Format
+import CgtModel.Validate
 /-! Line protocol: token parsers and printers shared by all driver commands. -/
 namespace Cgt.Wire
 open Cgt
